@@ -115,6 +115,7 @@ Definition rng_mismatches (cs : list rng_case) : list N :=
 
 (* ---- C16: select hints correspondence ---------------------------------- *)
 From Verif Require Import Hints HintsProofs.
+From Verif Require Pool.
 
 Record hint_case := mkHC { hc_id : N; hc_expr : expr; hc_window : window; hc_lb : Z; hc_observed : list sel }.
 
@@ -136,7 +137,9 @@ Definition sel_eqb (a b : sel) : bool :=
 Definition hint_case_ok (c : hint_case) : bool :=
   let m := eng_selects (hc_window c) (hc_lb c) (mkH "" [] false) (hc_expr c) in
   subsetb sel_eqb m (hc_observed c) && subsetb sel_eqb (hc_observed c) m
-  && mat_calls_unary (hc_expr c).
+  && mat_calls_unary (hc_expr c)
+  (* the selector pool's sharing is transparent for this query (Pool.pool_transparent) *)
+  && Pool.keys_determine m.
 
 Definition hint_mismatches (cs : list hint_case) : list N :=
   map hc_id (filter (fun c => negb (hint_case_ok c)) cs).
